@@ -8,8 +8,12 @@ import impl_ps, impl_graph
 PID = "C17"
 THEOREMS = ["PauLie.C17.C17_roundtrip", "PauLie.C17.C17_roundtrip_ps", "PauLie.C17.C17_sparse",
             "PauLie.C17.C17_reject", "PauLie.C17.C17_only_valueError", "PauLie.C17.C17_letters",
-            "PauLie.C17.C17_size_pad", "PauLie.Tie.alphabet_tie", "PauLie.Tie.int_tie", "PauLie.Tie.codec_tie"]
-IMPORTS = ["PauLieVerif.Properties.C17", "PauLieVerif.Proofs.Tie"]
+            "PauLie.C17.C17_size_pad", "PauLie.Tie.alphabet_tie", "PauLie.Tie.int_tie", "PauLie.Tie.codec_tie",
+            "PauLie.C17.C17_klocal", "PauLie.C17.C17_klocal_length", "PauLie.C17.C17_klocal_nodup",
+            "PauLie.C17.C17_klocal_mem", "PauLie.C17.C17_klocal_letters", "PauLie.C17.C17_klocal_order",
+            "PauLie.C17.C17_klocal_count", "PauLie.C17.C17_klocal_short", "PauLie.C17.C17_klocal_empty",
+            "PauLie.C17.C17_klocal_none"]
+IMPORTS = ["PauLieVerif.Properties.C17", "PauLieVerif.Properties.C17KLocal", "PauLieVerif.Proofs.Tie"]
 
 _ITEM = re.compile(r"([IXYZ])(?:_([0-9]+))?")
 def reference(text: str):
